@@ -7,8 +7,12 @@ import (
 	"io"
 	"io/ioutil"
 	"math/rand"
-	"runtime"
+	"os"
 	"runtime/debug"
+	"strconv"
+	"strings"
+	"sync/atomic"
+	"time"
 	"sort"
 	"sync"
 
@@ -205,9 +209,12 @@ func truncOffsets(s *Stream, r *rand.Rand) ([]int, bool) {
 // messages that end at or before t, and then an error.
 func truncation(s *Stream, offsets []int) (*problem, int) {
 	done := 0
+	var rd bytes.Reader
+	dec := newDecoder(s.Codec, &rd, s.Local, s.Remote)
 	for _, t := range offsets {
 		k := sort.SearchInts(s.Bounds, t+1) // number of bounds <= t
-		dec := newDecoder(s.Codec, bytes.NewReader(s.Bytes[:t]), s.Local, s.Remote)
+		rd.Reset(s.Bytes[:t])
+		dec.Reset(&rd)
 		for i := 0; i < k; i++ {
 			m, err, pan := safeDecode(dec)
 			if pan != nil || err != nil {
@@ -254,8 +261,8 @@ type plan struct {
 
 func mkPlan(c *vc.Ctx) plan {
 	return plan{
-		nMsgStreams: c.Pick(120, 4000), nV2Streams: c.Pick(200, 6000), nV2Long: c.Pick(3, 100), nEdge: c.Pick(12, 160),
-		capSteps: c.Pick(600, 4000), capRuns: c.Pick(4, 64), corruptShard: 8,
+		nMsgStreams: c.Pick(400, 12000), nV2Streams: c.Pick(800, 24000), nV2Long: c.Pick(8, 300), nEdge: c.Pick(16, 320),
+		capSteps: c.Pick(800, 4000), capRuns: c.Pick(8, 64), corruptShard: 8,
 	}
 }
 
@@ -415,11 +422,14 @@ func runC16(c *vc.Ctx) error {
 		return replayC16(c)
 	}
 	pl := mkPlan(c)
-	// every truncation trial needs a fresh decoder, which allocates a 1 MiB
-	// buffer: keep the collector from running every few trials
-	defer debug.SetGCPercent(debug.SetGCPercent(1000))
-	ballast := make([]byte, 96<<20)
-	defer runtime.KeepAlive(ballast)
+	// The real decoder constructors allocate a 1 MiB buffer each. Truncation and
+	// corruption trials therefore reuse one decoder per stream through
+	// VerifDecoder.Reset (same initial state as a constructor call, buffers
+	// kept); round trips use fresh decoders. The memory limit and the resident
+	// set guard are safety nets: this check must never endanger the machine.
+	defer debug.SetMemoryLimit(debug.SetMemoryLimit(3 << 30))
+	stopGuard := startRSSGuard(c, 4<<30)
+	defer stopGuard()
 	c.Ev.Rule = "message sequences (function of seed and stream index) are written by the real stream encoders and read back by the real decoders: (a) 'message' codec: every message type with arbitrary field values; (b) 'msgappv2' codec: MsgApp + link heartbeats of 1-4 interleaved raft groups between one node pair, as raft.send/peer.pick produce them, with runs of continuing appends, term changes, index gaps, empty appends, entries of 0/1 bytes and frames at 1 MiB-1/1 MiB/1 MiB+1; (c) sequences captured from a real 3-node, multi-group raft run. Oracle: field-wise equality immediately and again after the whole stream; every truncation offset (streams <= 64 KiB, sampled above) yields the sent prefix then an error; single-byte corruption yields an error or identical messages. " +
 		"A stream is non-trivial when it holds >= 2 messages; distinct per (codec, frame-type sequence, group interleaving pattern)."
 	c.Ev.Assume("msgappv2 is checked only inside the domain the transport gives it (MsgApp and link heartbeats, From/To equal to the replica ids of FromGroup/ToGroup, FromGroup.NodeId = sending node, ToGroup.NodeId = receiving node, group name a function of the group identity, Term >= 1, LogTerm <= Term, entries consecutive from Index+1)")
@@ -509,6 +519,7 @@ func runC16(c *vc.Ctx) error {
 	for i := 0; i < pl.nV2Streams; i++ {
 		jobs = append(jobs, job{"v2", i})
 	}
+	phase.Store("generated streams: round trip and truncation")
 	c.ParallelFor(len(jobs), func(j int) {
 		jb := jobs[j]
 		s, err := genStream(c.Seed, jb.kind, jb.idx)
@@ -545,6 +556,7 @@ func runC16(c *vc.Ctx) error {
 
 	// captured real traffic
 	capStats := map[string]int{}
+	phase.Store("captured raft traffic")
 	c.ParallelFor(pl.capRuns, func(run int) {
 		streams, st, probs := captureRun(c.Seed, run, pl.capSteps)
 		mu.Lock()
@@ -580,6 +592,7 @@ func runC16(c *vc.Ctx) error {
 	})
 
 	// single-byte corruption (child processes: a corrupted length may kill the process)
+	phase.Store("corruption children")
 	if err := runCorruption(c, pl); err != nil {
 		return err
 	}
@@ -638,7 +651,7 @@ func replayC16(c *vc.Ctx) error {
 	c.Ev.Eval()
 	fmt.Printf("C16 replay: %s stream, %d messages, %d bytes, clause %s\n", s.Codec, len(s.Msgs), len(s.Bytes), w.Clause)
 	if w.Clause == "corruption" {
-		hugeBudget = 0 // never risk the replaying process
+		hugeBudget = [2]int{0, 0} // never risk the replaying process
 		res := corruptStream(s, 0, 1<<30, nil)
 		for sig, ex := range res.examples {
 			c.Violation(sig, ex.Summary, Witness{Seed: w.Seed, Tier: w.Tier, Clause: "corruption", Stream: s, Msgs: w.Msgs, Local: s.Local, Remote: s.Remote, Detail: ex.Detail, Summary: ex.Summary})
@@ -652,4 +665,51 @@ func replayC16(c *vc.Ctx) error {
 	}
 	c.Violation(p.Sig, p.Summary, Witness{Seed: w.Seed, Tier: w.Tier, Clause: clause, Stream: s, Msgs: w.Msgs, MsgIdx: p.MsgIdx, Local: s.Local, Remote: s.Remote, Detail: p.Detail, Summary: p.Summary})
 	return nil
+}
+
+var phase atomic.Value // string: what the check is doing, for the memory guard's message
+
+func rssBytes() int64 {
+	b, err := ioutil.ReadFile("/proc/self/statm")
+	if err != nil {
+		return 0
+	}
+	f := strings.Fields(string(b))
+	if len(f) < 2 {
+		return 0
+	}
+	pages, _ := strconv.ParseInt(f[1], 10, 64)
+	return pages * int64(os.Getpagesize())
+}
+
+// startRSSGuard aborts the whole check (exit 2, inconclusive) when the
+// resident set exceeds limit.
+func startRSSGuard(c *vc.Ctx, limit int64) func() {
+	stop := make(chan struct{})
+	var peak int64
+	go func() {
+		t := time.NewTicker(100 * time.Millisecond)
+		defer t.Stop()
+		for {
+			select {
+			case <-stop:
+				return
+			case <-t.C:
+				r := rssBytes()
+				if r > atomic.LoadInt64(&peak) {
+					atomic.StoreInt64(&peak, r)
+				}
+				if r > limit {
+					ph, _ := phase.Load().(string)
+					fmt.Printf("INCONCLUSIVE property=%s resident set %d MiB exceeds the %d MiB guard during %q; aborting without verdict\n", c.ID, r>>20, limit>>20, ph)
+					os.RemoveAll(c.Scratch)
+					os.Exit(2)
+				}
+			}
+		}
+	}()
+	return func() {
+		close(stop)
+		c.Ev.Set("peak_resident_set_mib", atomic.LoadInt64(&peak)>>20)
+	}
 }
